@@ -221,7 +221,7 @@ fn metadata_cases(out: &mut Vec<Case>) {
     }
 }
 
-/// More than 10 000 index hunks, so that hunk sub-directory i/00001 is used (thorough).
+/// More than 10 000 index hunks, so that hunk sub-directory i/00001 is used.
 fn rollover_case(out: &mut Vec<Case>) {
     out.push(Case {
         tag: "hunk-subdirectory rollover: 10 030 entries, one per hunk".into(),
@@ -248,9 +248,7 @@ fn rollover_case(out: &mut Vec<Case>) {
 pub fn cases(thorough: bool) -> Vec<Case> {
     let mut v = Vec::new();
     metadata_cases(&mut v);
-    if thorough {
-        rollover_case(&mut v);
-    }
+    rollover_case(&mut v);
     structure_cases(if thorough { 4 } else { 3 }, &mut v);
     layout_cases(if thorough { 3 } else { 2 }, &mut v);
     if thorough {
